@@ -631,6 +631,13 @@ func flagStep(c TypesCase) (o typesOutcome, dv *vrt.Verdict) {
 			if !ok {
 				txt = "1"
 			}
+			if selfParsing(base) {
+				o.labels = append(o.labels, "self-parsing-flag-given")
+				if ch.value(l.Path)%5 == 0 {
+					txt = "!rejected" // text the type's own Set refuses: the source must answer with an error
+					o.labels = append(o.labels, "self-parsing-flag-rejected-text")
+				}
+			}
 			args = append(args, dash+l.Name+"="+txt)
 		}
 		stage = "Value"
@@ -1051,6 +1058,8 @@ func TestC16TypesFlag(t *testing.T) {
 	vrt.Check(t, vrt.Prop[TypesCase]{
 		ID: "C16", Name: "types-flag",
 		Rule: typesRuleCommon + "The std flag source is built from a template with seeded defaults (def_pct), then every chosen leaf that got a flag registered receives -name=<documented spelling of a seeded value> through the exported ParseFunc; " +
+			"the leaf grammar of the flag and pflag checks also holds user types that parse their own flag text, top-level or nested: flag.Value WITHOUT Get (FVLevel uint8, FVName string, FVPoint struct - Set + String on the pointer, which is all flag.Value asks for), flag.Getter (FGLevel: Get returns the value, FGName: the pointer, FGPoint), pflag.Value (PVLevel, PVName, PVPoint: Set + String + Type, hence also flag.Values without Get), user pointers to them, and FVPlain (a struct with Set + String but no text methods, which dials flattens); " +
+			"their flags are given (valid text; in a fifth of the cases text their own Set refuses) or omitted (set_pct); " +
 			"oracle: NewSetWithArgs and Value return, without panic, either an error or a value of the pointerified type; " +
 			"non-trivial = named non-scalar leaf present and at least one flag passed; distinct = distinct case JSON",
 		Assumptions: typesAssumptions,
